@@ -20,12 +20,32 @@
 (*                         list kept when the deepest hit and the depth are *)
 (*                         unchanged (a regression that shows when an       *)
 (*                         ancestor was replaced between two frames)        *)
-(* T is a session [n, pars, caps, lays] (one parent relation per layout);   *)
+(*   Reentrant      TRUE : focusWidget interprets the command returned for  *)
+(*                         the focus-out before it switches the focus (as   *)
+(*                         found: a focus command among them re-enters with *)
+(*                         the old widget still focused); FALSE: both       *)
+(*                         notifications are delivered, then their answers  *)
+(*                         interpreted (repaired)                           *)
+(*   LiveTarget     TRUE : the target phase goes to whoever holds the focus *)
+(*                         when it starts (as found); FALSE: to the widget  *)
+(*                         focused when the event arrived (repaired)        *)
+(*   BubbleSkipsLast TRUE: the bubble loop starts below the last widget of  *)
+(*                         the path whoever the target is (as found: a root *)
+(*                         that is the whole path of an undrawn focus is    *)
+(*                         never bubbled to); FALSE: it skips the target    *)
+(*   ConsumeLeak    TRUE : a consume returned for a focus notification      *)
+(*                         stops the event being routed (as found)          *)
+(*   DupSelf        TRUE : a widget that draws a surface of its own inside  *)
+(*                         its surface (T.wraps) is listed once per surface *)
+(*                         in the hit list and in the focus path (as found) *)
+(* T is a session [n, pars, caps, wraps, lays] (one parent relation per     *)
+(* layout);                                                                 *)
 (* im.lay is the layout of the last frame.                                  *)
 (* Handlers are modelled by a table: cons = <<w, ph>> (that handler         *)
 (* consumes the event) or <<>>.                                             *)
 EXTENDS Integers, Sequences, FiniteSets
-CONSTANTS StalePath, AllSiblings, EnterOnFocusIn, StaleTarget, FastPath
+CONSTANTS StalePath, AllSiblings, EnterOnFocusIn, StaleTarget, FastPath,
+          Reentrant, LiveTarget, BubbleSkipsLast, ConsumeLeak, DupSelf
 
 R == INSTANCE Routing
 
@@ -37,7 +57,11 @@ Im0 == [focused |-> 1, path |-> <<1>>, hits |-> <<>>, mouse |-> <<>>, lay |-> 1]
 
 (* focusHandler.findPath on the frame drawn from layout k: the path to f     *)
 (* when f is part of that frame, else just the root                          *)
-FindPath(T, k, f) == IF R!Present(R!At(T, k), T.lays[k], f) THEN R!PathTo(R!At(T, k), f) ELSE <<1>>
+RECURSIVE Dup(_, _)
+Dup(T, q) == IF q = <<>> THEN <<>>
+             ELSE (IF DupSelf /\ T.wraps[Head(q)] THEN <<Head(q), Head(q)>> ELSE <<Head(q)>>) \o Dup(T, Tail(q))
+DrawnPath(T, k, f) == LET q == R!PathTo(R!At(T, k), f) IN Dup(T, R!Front(q)) \o <<f>>
+FindPath(T, k, f) == IF R!Present(R!At(T, k), T.lays[k], f) THEN DrawnPath(T, k, f) ELSE <<1>>
 
 (* the three loops shared by focusHandler.handleEvent and                    *)
 (* mouseHandler.handleEvent: capture over the whole list (the last element   *)
@@ -59,18 +83,49 @@ Bub(list, i, cls, cons, ret) ==
   ELSE LET o == Offer(list[i], "bub", cls, RetOf(list[i], "bub", cons, ret)) IN
        IF Stops(list[i], "bub", cons, ret) THEN <<o>> ELSE <<o>> \o Bub(list, i - 1, cls, cons, ret)
 
+(* where the bubble loop starts *)
+BubFrom(list, target) == IF BubbleSkipsLast \/ list[Len(list)] = target THEN Len(list) - 1 ELSE Len(list)
+
 Dispatch(T, list, target, cls, cons, ret) ==
   LET c == Cap(T, list, 1, cls, cons, ret) IN
   IF c.stop THEN c.offers
   ELSE LET t == Offer(target, "tgt", cls, RetOf(target, "tgt", cons, ret)) IN
        IF Stops(target, "tgt", cons, ret) THEN c.offers \o <<t>>
-       ELSE c.offers \o <<t>> \o Bub(list, Len(list) - 1, cls, cons, ret)
+       ELSE c.offers \o <<t>> \o Bub(list, BubFrom(list, target), cls, cons, ret)
 
-(* focusHandler.focusWidget *)
-Focus(T, im, f) ==
-  IF im.focused = f THEN [im |-> im, offers |-> <<>>]
-  ELSE [im |-> [im EXCEPT !.focused = f, !.path = IF StalePath THEN @ ELSE FindPath(T, im.lay, f)],
-        offers |-> <<Offer(im.focused, "tgt", "fout", Nil), Offer(f, "tgt", "fin", Nil)>>]
+(* focusHandler.focusWidget.  left = the scripted answers to focus notifications *)
+(* not given yet: records [w, cls ("fout"/"fin"), k ("focus"/"consume"), a     *)
+(* (widget named by the focus command)], each given once.  Result: [im,         *)
+(* offers, left, consumed (some answer was a consume: the shared flag is set)]  *)
+AnsFor(left, w, cls) == {r \in left : r.w = w /\ r.cls = cls}
+One(S) == CHOOSE x \in S : TRUE
+RetOfAns(S) == IF S = {} THEN Nil ELSE IF One(S).k = "focus" THEN [c |-> "focus", w |-> One(S).a] ELSE Consume
+
+RECURSIVE FocusW(_, _, _, _)
+FocusW(T, im, f, left) ==
+  IF im.focused = f THEN [im |-> im, offers |-> <<>>, left |-> left, consumed |-> FALSE]
+  ELSE
+  LET old == im.focused
+      Interp(S, imx, l) ==       \* handleCommand on the answer S
+        IF S # {} /\ One(S).k = "focus" THEN FocusW(T, imx, One(S).a, l)
+        ELSE [im |-> imx, offers |-> <<>>, left |-> l, consumed |-> S # {}]
+      Switched(imx) == [imx EXCEPT !.focused = f, !.path = IF StalePath THEN @ ELSE FindPath(T, imx.lay, f)]
+      aO == AnsFor(left, old, "fout")
+      oO == Offer(old, "tgt", "fout", RetOfAns(aO))
+  IN IF Reentrant THEN
+       LET r1 == Interp(aO, im, left \ aO)
+           aI == AnsFor(r1.left, f, "fin")
+           r2 == Interp(aI, Switched(r1.im), r1.left \ aI)
+       IN [im |-> r2.im, offers |-> <<oO>> \o r1.offers \o <<Offer(f, "tgt", "fin", RetOfAns(aI))>> \o r2.offers,
+           left |-> r2.left, consumed |-> r1.consumed \/ r2.consumed]
+     ELSE
+       LET aI == AnsFor(left \ aO, f, "fin")
+           r1 == Interp(aO, Switched(im), (left \ aO) \ aI)
+           r2 == Interp(aI, r1.im, r1.left)
+       IN [im |-> r2.im, offers |-> <<oO, Offer(f, "tgt", "fin", RetOfAns(aI))>> \o r1.offers \o r2.offers,
+           left |-> r2.left, consumed |-> r1.consumed \/ r2.consumed]
+
+Focus(T, im, f) == FocusW(T, im, f, {})
 
 (* a key: cons consumes it; when fkey > 0 the target handler answers with    *)
 (* focus(fkey) + consume instead                                             *)
@@ -81,18 +136,60 @@ Key(T, im, cls, cons, fkey) ==
       foc == IF fkey > 0 /\ \E i \in 1..Len(d) : d[i].ph = "tgt" THEN Focus(T, im, fkey) ELSE [im |-> im, offers |-> <<>>]
   IN [im |-> foc.im, offers |-> d \o foc.offers]
 
-(* hitTest on one tree t = [n, parent, ...] *)
-RECURSIVE Hits(_, _, _, _, _)
-Hits(t, L, w, px, py) ==
+(* a key whose handler (hw, hph) answers with a focus command for f (and a    *)
+(* consume when wc) while the event is on its way; ans = scripted answers to   *)
+(* the focus notifications.  The route is the path as it was when the event    *)
+(* arrived; the target is read when the target phase starts.                   *)
+PlainOffers(ws, ph, cls) == [i \in 1..Len(ws) |-> Offer(ws[i], ph, cls, Nil)]
+IndexOf(q, x) == CHOOSE i \in 1..Len(q) : q[i] = x
+(* the handler (hw, hph) is offered a key that nobody consumes *)
+OnRoute(T, im, hw, hph) ==
+  LET tgt0 == IF StaleTarget THEN im.path[Len(im.path)] ELSE im.focused IN
+  CASE hph = "cap" -> T.caps[hw] /\ R!InSeq(im.path, hw)
+    [] hph = "tgt" -> hw = tgt0
+    [] OTHER       -> R!InSeq(SubSeq(im.path, 1, BubFrom(im.path, tgt0)), hw)
+KeyMove(T, im, cls, hw, hph, f, wc, ans) ==
+  LET path == im.path
+      tgt0 == IF StaleTarget THEN path[Len(path)] ELSE im.focused
+      fc   == [c |-> "focus", w |-> f]
+      ret  == IF wc THEN [c |-> "batch", l |-> <<fc, Consume>>] ELSE fc
+      capL == SelectSeq(path, LAMBDA w : T.caps[w])
+      foc  == FocusW(T, im, f, ans)
+      stop == wc \/ (ConsumeLeak /\ foc.consumed)
+      tgtA == IF LiveTarget THEN foc.im.focused ELSE tgt0      \* target when the focus moved during the capture phase
+      BubL(tg) == R!Rev(SubSeq(path, 1, BubFrom(path, tg)))
+  IN IF hph = "cap" /\ R!InSeq(capL, hw) THEN
+        LET i == IndexOf(capL, hw) IN
+        [im |-> foc.im,
+         offers |-> PlainOffers(SubSeq(capL, 1, i - 1), "cap", cls) \o <<Offer(hw, "cap", cls, ret)>> \o foc.offers
+                    \o (IF stop THEN <<>> ELSE PlainOffers(SubSeq(capL, i + 1, Len(capL)), "cap", cls)
+                                               \o <<Offer(tgtA, "tgt", cls, Nil)>> \o PlainOffers(BubL(tgtA), "bub", cls))]
+     ELSE IF hph = "tgt" /\ hw = tgt0 THEN
+        [im |-> foc.im,
+         offers |-> PlainOffers(capL, "cap", cls) \o <<Offer(hw, "tgt", cls, ret)>> \o foc.offers
+                    \o (IF stop THEN <<>> ELSE PlainOffers(BubL(tgt0), "bub", cls))]
+     ELSE IF hph = "bub" /\ R!InSeq(BubL(tgt0), hw) THEN
+        LET i == IndexOf(BubL(tgt0), hw) IN
+        [im |-> foc.im,
+         offers |-> PlainOffers(capL, "cap", cls) \o <<Offer(tgt0, "tgt", cls, Nil)>> \o PlainOffers(SubSeq(BubL(tgt0), 1, i - 1), "bub", cls)
+                    \o <<Offer(hw, "bub", cls, ret)>> \o foc.offers
+                    \o (IF stop THEN <<>> ELSE PlainOffers(SubSeq(BubL(tgt0), i + 1, Len(BubL(tgt0))), "bub", cls))]
+     ELSE [im |-> im, offers |-> Dispatch(T, path, tgt0, cls, <<>>, Nil)]
+
+(* hitTest on one tree t = [n, parent, ...]; wr[w] = w draws a surface of its  *)
+(* own inside its surface                                                      *)
+RECURSIVE Hits(_, _, _, _, _, _)
+Hits(t, wr, L, w, px, py) ==
   LET kids == {k \in 1..t.n : t.parent[k] = w /\ R!In(L[k], px, py)}
       RECURSIVE Each(_)
       Each(S) == IF S = {} THEN <<>>
                  ELSE LET k == CHOOSE m \in S : \A o \in S : m <= o
-                      IN Hits(t, L, k, px - L[k].x, py - L[k].y) \o Each(S \ {k})
-  IN IF kids = {} THEN <<<<w, px, py>>>>
-     ELSE IF AllSiblings THEN <<<<w, px, py>>>> \o Each(kids)
+                      IN Hits(t, wr, L, k, px - L[k].x, py - L[k].y) \o Each(S \ {k})
+      own == IF DupSelf /\ wr[w] THEN <<<<w, px, py>>, <<w, px, py>>>> ELSE <<<<w, px, py>>>>
+  IN IF kids = {} THEN own
+     ELSE IF AllSiblings THEN own \o Each(kids)
      ELSE LET top == CHOOSE k \in kids : \A j \in kids : R!OnTop(L, k, j)
-          IN <<<<w, px, py>>>> \o Hits(t, L, top, px - L[top].x, py - L[top].y)
+          IN own \o Hits(t, wr, L, top, px - L[top].x, py - L[top].y)
 
 (* mouseHandler.update against the frame drawn from layout k *)
 Update(T, im, k) ==
@@ -101,7 +198,7 @@ Update(T, im, k) ==
   LET L == T.lays[k]
       x == im.mouse[1]
       y == im.mouse[2]
-      hits == IF x >= 0 /\ y >= 0 /\ x < L[1].w /\ y < L[1].h THEN Hits(R!At(T, k), L, 1, x, y) ELSE <<>>
+      hits == IF x >= 0 /\ y >= 0 /\ x < L[1].w /\ y < L[1].h THEN Hits(R!At(T, k), T.wraps, L, 1, x, y) ELSE <<>>
       fast == FastPath /\ hits # <<>> /\ Len(hits) = Len(im.hits) /\ hits[Len(hits)] = im.hits[Len(hits)]
       gone == SelectSeq(im.hits, LAMBDA h : \A i \in 1..Len(hits) : hits[i] # h)
       come == SelectSeq(hits, LAMBDA h : \A i \in 1..Len(im.hits) : im.hits[i] # h)
@@ -129,7 +226,7 @@ Frame(T, im, k) ==
   LET u == Update(T, im, k)
       m == [u.im EXCEPT !.lay = k]
   IN IF R!Present(R!At(T, k), T.lays[k], m.focused)
-     THEN [im |-> [m EXCEPT !.path = R!PathTo(R!At(T, k), m.focused)], offers |-> u.offers]
+     THEN [im |-> [m EXCEPT !.path = DrawnPath(T, k, m.focused)], offers |-> u.offers]
      ELSE [im |-> [m EXCEPT !.focused = 1, !.path = <<1>>],
            offers |-> u.offers \o <<Offer(m.focused, "tgt", "fout", Nil), Offer(1, "tgt", "fin", Nil)>>]
 =============================================================================
